@@ -105,7 +105,7 @@ def make_peaks(rnd, g, ubis, n):
 class C07(object):
     id = "C07"
     engine = "simomp"
-    tiers = {"quick": {"runs": 5000, "budget_s": 60, "selftest_every": 50, "fresh_selftest": 8},
+    tiers = {"quick": {"runs": 10000, "budget_s": 60, "selftest_every": 50, "fresh_selftest": 8},
              "thorough": {"runs": 1000000, "budget_s": 800, "selftest_every": 300, "fresh_selftest": 16}}
     rule = ("one run = (1..50 grains incl. twins/near-duplicates/duplicates, 0..20000 peaks biased to 4096*k and "
             "4096*k+-1, tolerance, seeded grain order, route kernel|fight_over_peaks|assignlabels, team 1..32, strategy, "
